@@ -30,6 +30,11 @@ TRUSTED_REASONS = {
     'external_body: validate_scheme': 'iter().all(): arbitrary total bool',
     'external_body: lex_ip_schemepart': 'slice pattern; contract assumed; Kani harness lexing.url_4 (bounded)',
     'external_body: condense_indices': 'peekable()-based body; contract assumed in Verus, checked by rac:condense_indices (bounded: len<=7, stretch<=3)',
+    'external_body: next': 'number_lint unit: Document::iter_numbers is paste!-generated (tokens.iter().filter(is_number)); assumed to yield document tokens of kind Number and to terminate',
+    'external_body: iter_numbers': 'see external_body: next',
+    'external_body: correct_suffix_for': 'number_lint unit: an arbitrary total function (sp_correct); its correctness is the Kani full-domain harness number.suffix_full_domain',
+    'uninterp: sp_correct': 'what correct_suffix_for returns',
+    'external_body: default': 'Lint::default is total; every field the rule relies on is overwritten',
     'external_body: clone': 'the derived Clone of Token returns an equal value',
     # --- opaque data / total predicates with NO postcondition ---
     'external_body: is_': 'TokenKind/char predicate used only as an arbitrary total bool',
